@@ -43,10 +43,8 @@ pub(crate) fn range_with_prefix<'a>(
     };
     let end = match end {
         Some(e) => Some(concat(namespace, e)),
-        // no key sorts after all keys of this namespace, the range is open-ended
-        None if is_last_namespace(namespace) => None,
-        // end is updating last byte by one
-        None => Some(namespace_upper_bound(namespace)),
+        // end is updating last byte by one, the range is open-ended if there is no such key
+        None => namespace_end(namespace),
     };
 
     // get iterator from storage
@@ -63,15 +61,21 @@ fn trim(namespace: &[u8], key: &[u8]) -> Vec<u8> {
     key[namespace.len()..].to_vec()
 }
 
-/// Returns true if the namespace is empty or consists only of bytes 255,
-/// in which case [namespace_upper_bound] wraps around and is not an upper bound.
-fn is_last_namespace(namespace: &[u8]) -> bool {
-    for byte in namespace.iter() {
-        if *byte != 255 {
-            return false;
-        }
+/// Returns the smallest key that is greater than all keys starting with the namespace,
+/// or `None` if there is no such key (the namespace is empty or consists only of bytes 255).
+/// This is [namespace_upper_bound] without the trailing zeros of the bytes that wrapped around,
+/// which would let shorter keys outside of the namespace into the range.
+fn namespace_end(namespace: &[u8]) -> Option<Vec<u8>> {
+    let mut len = namespace.len();
+    while len > 0 && namespace[len - 1] == 255 {
+        len -= 1;
     }
-    true
+    if len == 0 {
+        return None;
+    }
+    let mut end = namespace_upper_bound(namespace);
+    end.truncate(len);
+    Some(end)
 }
 
 /// Returns a new vec of same length and last byte incremented by one
